@@ -919,3 +919,54 @@ def inferred_emptiness(facts):
     if n < 4:
         out.append(ob("theta.empty-flag", "anchor", "", "unrecognised", "only %d result constructions found" % n, ""))
     return out
+
+
+def entry_bits_cover_all_deltas(facts):
+    """compact theta v4 (compressed) images store deltas of the ordered hashes in `entry_bits` bits each, the first delta being the
+    smallest hash itself (previous = 0).  compute_entry_bits() therefore ORs `entry - previous` over ALL entries starting from
+    previous = 0; a scan that starts at the second entry sizes the fields for the gaps only and the first hash loses its high bits
+    whenever it is wider than every gap."""
+    from astu import single_assignment_locals, loops_of
+    fns = functions_by(facts, ["theta"])
+    out = []
+    for pat, fn in sorted(fns.items()):
+        if fn["name"] != "compute_entry_bits" or "compact_theta_sketch_alloc" not in (fn.get("rect") or ""):
+            continue
+        key = "compact_theta_sketch_alloc::compute_entry_bits:first-delta-from-zero"
+        loops = []
+        walk(fn["body"], lambda n: loops.append(n) if n.get("k") in ("For", "RangeFor", "While", "Do") else None)
+        if len(loops) != 1:
+            out.append(ob("theta.entry-bits", key, fn["pat"], "unrecognised", "%d loops in compute_entry_bits" % len(loops), fn["qname"]))
+            continue
+        L = loops[0]
+        if L.get("k") != "RangeFor" or txt(L.get("range")).replace(" ", "") not in ("entries_", "this->entries_"):
+            start = "?"
+            if L.get("k") == "For" and isinstance(L.get("init"), dict) and L["init"].get("k") == "Decl" and L["init"].get("vars"):
+                start = txt(L["init"]["vars"][0].get("init"))
+            out.append(ob("theta.entry-bits", key, L.get("loc", fn["pat"]), "violated", "the scan over the entries starts at `%s` / is not a loop over all of entries_: the first delta (the smallest hash itself, counted from 0) is not covered by entry_bits, so the first hash of a compressed image loses its high bits when it is wider than every gap" % start, fn["qname"]))
+            continue
+        E = (L.get("var") or {}).get("d")
+        sa = single_assignment_locals(fn)
+        ors = []
+        walk(L.get("b"), lambda n: ors.append(n) if n.get("k") == "Assign" and n.get("op") == "|=" else None)
+        def res(x):
+            x = strip_all(x)
+            while isinstance(x, dict) and x.get("k") == "Ref" and x.get("d") in sa and x.get("d") != E:
+                x = strip_all(sa[x["d"]])
+            return x if isinstance(x, dict) else {}
+        prevs = []
+        walk(L.get("b"), lambda n: prevs.append(n) if n.get("k") == "Assign" and n.get("op") == "=" and strip_all(n["l"]).get("k") == "Ref" and res(n["r"]).get("k") == "Ref" and res(n["r"]).get("d") == E else None)
+        ok = False
+        why = "no `ored |= entry - previous` with `previous = entry` found"
+        if len(ors) == 1 and len(prevs) == 1:
+            P = strip_all(prevs[0]["l"])["d"]
+            r = strip_all(ors[0]["r"])
+            while r.get("k") == "Ref" and r.get("d") in sa:
+                r = strip_all(sa[r["d"]])
+            pinit = [v for v in local_decls(fn).values() if v.get("d") == P]
+            if r.get("k") == "Bin" and r.get("op") == "-" and res(r["l"]).get("d") == E and strip_all(r["r"]).get("d") == P and pinit and strip_all(pinit[0].get("init") or {}).get("v") == 0:
+                ok = True
+            else:
+                why = "the accumulated value is `%s` with previous initialised to `%s`" % (txt(ors[0]["r"], sa), txt(pinit[0].get("init")) if pinit else "?")
+        out.append(ob("theta.entry-bits", key, L.get("loc", fn["pat"]), "discharged" if ok else "unrecognised", "entry_bits covers entry - previous for every entry, previous starting at 0" if ok else why, fn["qname"]))
+    return out
